@@ -265,7 +265,7 @@ def run(ctx):
                                       InterSystemRecurrenceNetwork)
     rng = ctx.rng
     quick = ctx.tier == "quick"
-    scale = 1 if quick else 12
+    scale = 4 if quick else 40
     ctx.rule = ("half-integer series (length 1..10 quick / ..17 thorough, 1-3 columns or delay "
                 "embedding dim 1-3, tau 1-3, NaN patterns), thresholds k/4 (ties with distances "
                 "included, also 0 and negative), dyadic rates k/16 incl. 0 and 1, lags -4..4 and "
@@ -543,6 +543,38 @@ def run(ctx):
                          dict(replay, expected=enc_bmat(exp), observed=enc_bmat(A)))
         if not (mv and any(miss)) or net:
             check_rqa(ctx, obj, R, cls, dict(spec=kind, missing=bool(mv and any(miss))), replay)
+        if net and not any(miss) and len(st) >= 2:
+            # the setters rebuild plot *and* network
+            setters = [("set_fixed_threshold", float(gen_eps(rng))),
+                       ("set_fixed_recurrence_rate", float(gen_rate(rng))),
+                       ("set_fixed_local_recurrence_rate", float(gen_rate(rng))),
+                       ("set_fixed_threshold_std", rng.choice([0.25, 0.5, 1.0, 2.0])),
+                       ("set_adaptive_neighborhood_size", rng.randrange(1, len(st)))]
+            for nm, arg in rng.sample(setters, 2):
+                ctx.count(f"RecurrenceNetwork.{nm}")
+                try:
+                    getattr(obj, nm)(arg)
+                except Exception as ex:  # noqa
+                    ctx.fail(dict(kind="network", cls=cls, issue="setter-raises", method=nm,
+                                  error=type(ex).__name__),
+                             f"{cls}.{nm}({arg}) raised {type(ex).__name__}: {ex}",
+                             dict(replay, setter=nm, setter_arg=arg))
+                    break
+                R2 = np.asarray(obj.recurrence_matrix())
+                e2 = R2.copy()
+                np.fill_diagonal(e2, 0)
+                A2 = np.asarray(obj.adjacency)
+                if A2.shape != e2.shape or not np.array_equal(A2, e2):
+                    ctx.fail(dict(kind="network", cls=cls, issue="adjacency", method=nm),
+                             f"{cls}.{nm}({arg}): adjacency is not the recurrence matrix without its diagonal",
+                             dict(replay, setter=nm, setter_arg=arg, expected=enc_bmat(e2),
+                                  observed=enc_bmat(A2)))
+                if nm == "set_fixed_threshold":
+                    exp2 = q_matrix(metric, st, st, Fr(arg))
+                    if R2.tolist() != exp2:
+                        ctx.fail(dict(kind="matrix", cls=cls, spec="t", issue="entries", method=nm),
+                                 f"{cls}.{nm}({arg}): recurrence matrix differs from [d < eps]",
+                                 dict(replay, setter=nm, setter_arg=arg))
 
     # adaptive neighbourhood size on objects (property: >= k neighbours each)
     for c in range(40 * scale):
